@@ -16,6 +16,9 @@ ASSUME = [
     'CROSS_RING_FAIL_THRESHOLD=2, STEAL_RING_SHARING=2, WAKE_BRANCH_FACTOR=2, ring capacity 2); they change counts, not logic',
     'sequentially consistent interleavings (weak memory: C10); Linux futex back-end only',
     'external producers only (pool-recursive submission is covered by the task-set checks)',
+    'every model run also checks that ThreadPool.tla refines PoolAbs.tla (PROPERTY Refines: the exactly-once / nothing-pending-'
+    'when-gone abstraction the client specifications are written over) and every validated trace of the real pool is checked '
+    'step by step against PoolAbs!Next on its (alive, submitted, ran) projection (TraceRefines)',
 ]
 
 
